@@ -9,7 +9,7 @@ import re
 import tempfile
 import warnings
 
-from ..core import (numpy, numpoly, run_driver, poly_to_struct, den_of_struct, den_key, err_kind, Monitor)
+from ..core import (MalformedResult, numpy, numpoly, run_driver, poly_to_struct, den_of_struct, den_key, err_kind, Monitor)
 from .. import gen
 
 RULE = ("C01 polynomial arrays (int and dyadic float coefficients, 1-4 names incl. q10, shapes 0-d .. 3-d incl. size-1 "
@@ -42,7 +42,11 @@ def P(rng, **kw):
 
 def same_exact(a, b):
     """shape, dtype, names, exponents and coefficients identical"""
-    sa, sb = poly_to_struct(a), poly_to_struct(b)
+    sa = poly_to_struct(a)
+    try:
+        sb = poly_to_struct(b)
+    except MalformedResult as err:
+        return [f"the object that came back is unreadable: {err}"]
     probs = []
     for k in ("shape", "dtype", "names"):
         if sa[k] != sb[k]:
